@@ -22,6 +22,14 @@ func (c dcol) etok() string {
 	return "_"
 }
 
+// sertok: "_" = not a serial type, "s <SequenceName>" otherwise.
+func (c dcol) sertok() string {
+	if c.typ == "serial" || c.typ == "bigserial" {
+		return "s " + hx(c.seq)
+	}
+	return "_"
+}
+
 func (c dcol) stok() string { return join(hx(c.name), c.etok(), b01(c.comment != "")) }
 
 func (i didx) stok() string {
@@ -75,9 +83,10 @@ func (s dsub) stok() string {
 	case "DK", "MK", "APK", "DPK", "MPK":
 		return s.k
 	case "MC":
-		return join("MC", hx(s.col2.name), s.col.etok(), s.col2.etok(),
-			b01(strings.Contains(s.chg, "type")), b01(s.col2.typ == "serial"),
-			b01(strings.Contains(s.chg, "null") || s.chg == "default"), b01(strings.Contains(s.chg, "comment")))
+		return join("MC", hx(s.col2.name), s.col.etok(), s.col2.etok(), s.col.sertok(), s.col2.sertok(),
+			b01(strings.Contains(s.chg, "type")),
+			b01(strings.Contains(s.chg, "null") || strings.Contains(s.chg, "default") || strings.Contains(s.chg, "attr")),
+			b01(strings.Contains(s.chg, "comment")))
 	case "MI":
 		return join("MI", s.idx.stok(), s.idx2.stok(), b01(strings.Contains(s.chg, "parts")), b01(strings.Contains(s.chg, "comment")))
 	case "MF":
